@@ -43,7 +43,7 @@ func execRun(f []string) (string, string) {
 		Inject:      strings.Contains(mode, "i"),
 		Duplicate:   strings.Contains(mode, "d"),
 		Rng:         rng,
-		Timeout:     runTimeout - 30*time.Second,
+		Timeout:     150 * time.Second,
 	})
 	var okMembers []int
 	keys := map[string]bool{}
@@ -151,8 +151,8 @@ func runOp(r *hx.Rng, n, t int, excluded []int, mode string) string {
 	return fmt.Sprintf("run %d %d %s %s %s", n, t, hx.JoinInts(excluded), seed, mode)
 }
 
-// genRun: quick = 3 real runs (3-of-5 with a random exclusion set and forged + duplicated
-// traffic; 3-of-5 with exclusions where the excluded members run too; 4-of-7 with 2..3 excluded),
+// genRun: quick = 2 real runs (3-of-5 with 1..2 excluded members that run the protocol too, forged +
+// duplicated traffic; 4-of-7 with 2..3 excluded, forged + duplicated traffic),
 // thorough = every exclusion set of the 5-group that leaves >= 3 operating (16 sets, modes
 // rotating) plus sampled 4-of-7 runs.
 func genRun(r *hx.Rng, tier string) []string {
@@ -167,9 +167,8 @@ func genRun(r *hx.Rng, tier string) []string {
 	modes := []string{"di", "dix", "i", "ix", "d", "-"}
 	var ops []string
 	if tier != "thorough" {
-		ops = append(ops, runOp(r, 5, 3, hx.Pick(r, five), "di"))
 		ops = append(ops, runOp(r, 5, 3, hx.Pick(r, five[1:]), "dix"))
-		ops = append(ops, runOp(r, 7, 4, hx.Pick(r, seven), "i"))
+		ops = append(ops, runOp(r, 7, 4, hx.Pick(r, seven), "di"))
 		return ops
 	}
 	for i, ex := range five {
